@@ -104,6 +104,18 @@ func checkC04(c gen.ProgCase) Verdict {
 	if ref.CanonRefs(r.Out) != ref.CanonRefs(rr.out) {
 		return bad(true, "outputs differ\n js %q\n go %q\n%s data=%v ij=%v\n%s", r.Out, rr.out, showSources(names, srcs), c.Data, c.IJ, showJS(files))
 	}
+	// both backends work from one compiled bundle: generating the JavaScript must leave the Go
+	// renderer's output as it was, and a second generation must give the same text
+	if rr2 := cb.render(c.Entry, c.Data, c.IJ, c.HasIJ); rr2.out != rr.out || (rr2.err != nil) != (rr.err != nil) {
+		return bad(true, "after the JavaScript was generated from the same compiled bundle the Go renderer writes %q (error %v); before it wrote %q - and that is what the JavaScript returns\n%s data=%v", rr2.out, rr2.err, rr.out, showSources(names, srcs), c.Data)
+	}
+	if files2, err := jsSources(cb, soyjs.Options{}, false); err == nil {
+		for i := range files2 {
+			if files2[i].Src != files[i].Src {
+				return bad(true, "a second generation of %s from the same compiled bundle differs from the first; first difference at %s\n%s", files[i].Name, firstDiff(files[i].Src, files2[i].Src), showSources(names, srcs))
+			}
+		}
+	}
 	st := statsOf(&c.Prog)
 	// the same with a translation bundle (marked translations of every non-plural message)
 	if st.msgs > 0 {
